@@ -68,6 +68,23 @@ fn entries_of(events: &[SerEvent]) -> Option<Vec<Entry>> {
     Some(es)
 }
 
+/// Struct names are a handful of distinct strings: intern them so that a `&'static str` can be
+/// handed to the delivery (bounded leak).
+fn leak_name(name: &str) -> &'static str {
+    use std::sync::Mutex;
+    static NAMES: Mutex<Vec<&'static str>> = Mutex::new(Vec::new());
+    let mut g = NAMES.lock().unwrap_or_else(|e| e.into_inner());
+    if let Some(n) = g.iter().find(|n| **n == name) {
+        return n;
+    }
+    if g.len() > 64 {
+        return "…";
+    }
+    let n: &'static str = Box::leak(name.to_string().into_boxed_str());
+    g.push(n);
+    n
+}
+
 pub fn execute(c: &SerCase) -> LegReport {
     let mut rep = LegReport::default();
     if !ref_valid_bits(c.hi, c.lo) {
@@ -127,7 +144,16 @@ pub fn execute(c: &SerCase) -> LegReport {
                         continue;
                     }
                     let name = if honour_fields { "map presented by a format that honours the fields hint" } else { name };
-                    match run_twofloat(&entries, &Delivery { honour_fields, human_readable: c.human_readable, ..Delivery::clean(mode) }) {
+                    // own output is read back through a typed format that also checks the struct name it
+                    // was written under: Serialize and Deserialize must agree with each other
+                    let written_name: Option<&'static str> = run0.events.iter().find_map(|e| match e {
+                        SerEvent::Struct { name, .. } => Some(leak_name(name)),
+                        _ => None,
+                    });
+                    match run_twofloat(
+                        &entries,
+                        &Delivery { honour_fields, human_readable: c.human_readable, typed_requests: true, expect_struct_name: written_name, ..Delivery::clean(mode) },
+                    ) {
                         Err(msg) => rep.violations.push(viol("PANIC", format!("deserialize ({name}) panicked: {msg}"))),
                         Ok(DeOutcome { result: Ok((h, l)), .. }) => {
                             if h != c.hi || l != c.lo {
